@@ -362,6 +362,7 @@ props["C02"] = {
         run("root", "VxC02MaxLTX", {}, {}),
         run("root", "VxC09Budget", {"PS": 8, "K": 2, "_tactic": 1}, {"PS": 8, "K": 3, "_tactic": 1}, note="pageMap cuts only at commit frames (shared with C09)"),
         run("root", "VxC01Sync", {}, {}, note="each level-0 file holds committed pages only and is numbered pos+1 (shared with C01)"),
+        run("root", "VxC14Checkpoint", {}, {}, note="checkpoint protocol: a PASSIVE checkpoint runs under the write lock after a sealing copy; an unsealed checkpoint is followed by a boundary snapshot under the write lock (shared with C14/C01)"),
     ],
     "assumptions": [
         "E-WAL (DESIGN.md C04): a WAL generation has fixed salts; the application restarts the WAL only when it is fully backfilled, so after a restart the database file holds the previous generation's final state; two generations never share both salts",
